@@ -60,7 +60,8 @@ ASSUMPTIONS = [
     'clauses contradict each other there)',
     'SLE computed-solubility clause is evaluated for T < Tm only (the eutectic relation is the solubility of a SOLID; at T >= Tm nothing is demanded of a mixture)',
     'SLE "solubility it computed" is re-evaluated independently: chemicals.solubility_eutectic(T, Tm, Hfus, Cn.l(T), Cn.s(T), gamma) with '
-    'gamma of the solute from thermo.Gamma at the liquid composition the call left behind (gamma = 1 for the ideal package)',
+    'gamma of the solute from thermo.Gamma at the liquid composition the call left behind; for the ideal package gamma is the solver\'s documented '
+    '`activity_coefficient` attribute (config axis: unset, 2, 5)',
     'between grid points nothing is claimed; third-party numerics (flexsolve, scipy, chemicals) are trusted',
 ]
 TOLERANCES = {
@@ -651,6 +652,7 @@ def _sle_call(st, solute, T, given):
     others_present = (l0 + s0).sum() - tot > 0
     mode = 'given' if given is not None else 'computed'
     ctx = dict(mode=mode, pure=not others_present, after_computed_call=st.calls['computed'] > 0, after_given_call=st.calls['given'] > 0)
+    if st.config[3] > 1: ctx['activity_coefficient'] = float(st.config[3])     # ideal package with the solver attribute set
     earlier = dict(st.calls)
     _COUNT['sle_x'] = None; _COUNT['sle_iter'] = 0
     sle0 = s._sle_cache.value
@@ -706,7 +708,8 @@ def _sle_call(st, solute, T, given):
                                 f'(liquid={l1.tolist()}, solid={s1.tolist()})', match=mk, residual=x - given)
         else:
             if st.config[3]:
-                gam = 1.0
+                # ideal package: the documented `activity_coefficient` attribute of the solver (1 when not set) IS the solute's gamma
+                gam = float(st.config[3])
             else:
                 present = (l1 + s1) > 0        # the chemicals the call had in view
                 xs = np.where(present, l1, 0.0); xs = xs / xs.sum()
@@ -747,6 +750,9 @@ class SLEBase(System):
         flows[solute] = solute_amt
         s = tmo.Stream(None, thermo=th, **flows)
         sle = s.sle
+        # config field `ideal`: 0 = Dortmund package; 1 = ideal package, attribute left unset; 2, 5 = ideal package with
+        # `stream.sle.activity_coefficient` set to that value
+        if ideal and ideal > 1: sle.activity_coefficient = float(ideal)
         if solid_frac:
             s.imol['s', solute] = solute_amt * solid_frac
             s.imol['l', solute] = solute_amt * (1 - solid_frac)
@@ -771,7 +777,7 @@ class SLEGrid(SLEBase):
         out = []
         amts = ('a', 'b')
         for sol in SOLUTES:
-            for ideal in (0, 1):
+            for ideal in (0, 1, 2, 5):
                 for ss in SOLV_SETS:
                     for amt in (amts if ss else ('a',)):
                         for sa in ((1.0, 30.0) if tier != 'quick' else (30.0,) if amt == 'a' else (1.0,)):
@@ -814,7 +820,7 @@ class SLEHist(SLEBase):
     def configs(self, tier, seed):
         out = []
         for sol in SOLUTES:
-            for ideal in (0, 1):
+            for ideal in (0, 1, 2, 5):
                 out.append((sol, (0,), 'a', ideal, tier))
         k = seed % len(out)
         return out[k:] + out[:k]
@@ -862,7 +868,7 @@ class SLEFeed(SLEBase):
         return dict(solvent_sets=[list(x) for x in self._sets(tier)], solvent_patterns=list(self._pats(tier)),
                     solute_totals=list(self._amts(tier)), given=list(self._given(tier)))
     def configs(self, tier, seed):
-        out = [(sol, (0,), 'a', ideal, tier) for sol in SOLUTES for ideal in (0, 1)]
+        out = [(sol, (0,), 'a', ideal, tier) for sol in SOLUTES for ideal in (0, 1, 2, 5)]
         k = seed % len(out)
         return out[k:] + out[:k]
     def build(self, config):
